@@ -3930,3 +3930,142 @@ func runComposedConversionTargetsResult(rr *RuleRun) {
 		})
 	}
 }
+
+// ---------------------------------------------------------------------------
+// C15.null-written-only-for-null
+
+func init() {
+	register(&Rule{
+		ID: "C15.null-written-only-for-null", Prop: "C15", Also: []string{"C16"}, Floor: 2, Controls: 0,
+		Doc: "the value encoders (package json and msgpack: marshal and its helpers) write a bare null (the literal \"null\", EncodeNil) only on paths where IsNull() of the value being encoded was decided true: a structure that merely contains a null or a dynamically-typed member must not collapse into null",
+		Run: runNullWrittenOnlyForNull,
+	})
+}
+
+func runNullWrittenOnlyForNull(rr *RuleRun) {
+	c := rr.Ctx
+	for _, pkg := range []string{"cty/json", "cty/msgpack"} {
+		info := c.Info(pkg)
+		for _, fd := range c.SortedDecls(pkg) {
+			if !strings.HasPrefix(strings.ToLower(declName(fd)), "marshal") && !strings.Contains(declName(fd), "Marshal") {
+				continue
+			}
+			var sites []*ast.CallExpr
+			inspectNoLit(fd.Body, func(n ast.Node) bool {
+				call, ok := n.(*ast.CallExpr)
+				if !ok {
+					return true
+				}
+				if f := callee(info, call); f != nil && f.Name() == "EncodeNil" {
+					sites = append(sites, call)
+				}
+				if f := callee(info, call); f != nil && (f.Name() == "WriteString" || f.Name() == "Write") && len(call.Args) == 1 {
+					if tv, ok := info.Types[call.Args[0]]; ok && tv.Value != nil && constantString(tv.Value) == "null" {
+						sites = append(sites, call)
+					}
+					if conv, ok := ast.Unparen(call.Args[0]).(*ast.CallExpr); ok && len(conv.Args) == 1 {
+						if tv, ok := info.Types[conv.Args[0]]; ok && tv.Value != nil && constantString(tv.Value) == "null" {
+							sites = append(sites, call)
+						}
+					}
+				}
+				return true
+			})
+			if len(sites) == 0 {
+				continue
+			}
+			cf := c.CondFacts(fd.Body, info, nil)
+			for _, call := range sites {
+				key := fmt.Sprintf("%s.%s/%s", pkg, declName(fd), trunc(exprStr(call), 40))
+				isNull := cf.HoldsAt(call, func(cond ast.Expr, truth bool) bool {
+					cc, ok := ast.Unparen(cond).(*ast.CallExpr)
+					return ok && truth && isCall(info, cc, "cty.Value.IsNull")
+				})
+				if isNull {
+					rr.OK(key, call.Pos(), "written only where the value was tested null")
+				} else {
+					rr.Violation(key, call.Pos(), "a bare null is written on a path that has not established that the value being encoded is null: a non-null value (a structure containing a null, a value of a type that merely contains a placeholder) is then encoded as null and cannot be decoded back")
+				}
+			}
+		}
+	}
+}
+
+// ---------------------------------------------------------------------------
+// C18.object-attributes-cross-checked
+
+func init() {
+	register(&Rule{
+		ID: "C18.object-attributes-cross-checked", Prop: "C18", Floor: 2, Controls: 0,
+		Doc: "fromCtyObject cross-checks the object's attributes and the struct's tagged fields both ways on every call: a loop over the attribute types returns an error for an attribute that has no field, a loop over the tagged fields returns an error for a non-nilable field that has no attribute, and neither loop is nested under a condition (a comparison of the two counts cannot tell which names are missing)",
+		Run: runObjectAttributesCrossChecked,
+	})
+}
+
+func runObjectAttributesCrossChecked(rr *RuleRun) {
+	c := rr.Ctx
+	pkg := "cty/gocty"
+	info := c.Info(pkg)
+	fd := rr.MustDecl(pkg, "fromCtyObject")
+	if fd == nil {
+		return
+	}
+	found := map[string]bool{}
+	inspectNoLit(fd.Body, func(n ast.Node) bool {
+		rs, ok := n.(*ast.RangeStmt)
+		if !ok {
+			return true
+		}
+		mt, ok := info.TypeOf(rs.X).Underlying().(*types.Map)
+		if !ok {
+			return true
+		}
+		kind := ""
+		switch {
+		case isCtyType(mt.Elem()):
+			kind = "attributes"
+		default:
+			if b, ok := mt.Elem().Underlying().(*types.Basic); ok && b.Info()&types.IsInteger != 0 {
+				kind = "fields"
+			}
+		}
+		if kind == "" {
+			return true
+		}
+		// an error return inside the loop that is conditioned on a failed comma-ok lookup
+		reports := false
+		inspectNoLit(rs.Body, func(m ast.Node) bool {
+			ret, ok := m.(*ast.ReturnStmt)
+			if !ok || len(ret.Results) != 1 || isNilIdent(info, ret.Results[0]) {
+				return true
+			}
+			if call, ok := ast.Unparen(ret.Results[0]).(*ast.CallExpr); ok {
+				if f := callee(info, call); f != nil && strings.HasPrefix(f.Name(), "NewError") {
+					reports = true
+				}
+			}
+			return true
+		})
+		if !reports {
+			return true
+		}
+		key := fmt.Sprintf("%s.fromCtyObject/range %s (%s)", pkg, trunc(exprStr(rs.X), 20), kind)
+		found[kind] = true
+		for p := c.Parent(rs); p != nil && p != ast.Node(fd.Body); p = c.Parent(p) {
+			if is, ok := p.(*ast.IfStmt); ok {
+				rr.Violation(key, rs.Pos(), fmt.Sprintf("the cross-check of the %s runs only under 'if %s': when the condition is false a name that has no counterpart goes unreported (an attribute without a field is silently dropped, or a required field is left unset)", kind, trunc(exprStr(is.Cond), 50)))
+				return true
+			}
+			if _, ok := p.(*ast.CaseClause); ok {
+				break
+			}
+		}
+		rr.OK(key, rs.Pos(), "runs unconditionally")
+		return true
+	})
+	for _, kind := range []string{"attributes", "fields"} {
+		if !found[kind] {
+			rr.Violation(fmt.Sprintf("%s.fromCtyObject/%s", pkg, kind), fd.Pos(), fmt.Sprintf("no loop over the %s reports a name that has no counterpart on the other side", kind))
+		}
+	}
+}
